@@ -169,7 +169,7 @@ def run(ck: Checker):
                 if d in EAGER_CONSUMING:
                     continue  # already reported above
                 if not (d in LAZY_COMBINATORS or d.endswith('groupby') or d.endswith('fifo_stream') or d in ('isiterable', 'isasynciterable', 'Parmapper', 'cls')):
-                    probs.append(f'the input is handed to `{d}`, which is not a known lazy combinator')
+                    probs.append(f'the input is handed to `{d}`, which is not a known lazy combinator' + (': the builtin runs the user callable inside its own __next__, so a StopIteration raised by the callable is taken for the end of the input and the stream is silently truncated (a generator body turns it into RuntimeError)' if d in ('map', 'filter') else ''))
             if not loops and not handed and not any(isinstance(n, ast.YieldFrom) and dotted(n.value) == src for n in walk_shallow_func(f.node)):
                 probs.append('the input is not consumed at all')
             for lp in loops:
@@ -240,6 +240,13 @@ def run(ck: Checker):
                 c03ops.check_head_count(ck, 'C03-6', f, c.name)
             if 'Tailer' in c.name:
                 c03ops.check_tail_window(ck, 'C03-6', f, c.name)
+    # ------------------------------------------------------------------ C03-8
+    ck.rule('C03-8', 'the hand-off queue under buffer / parmap cannot lose an element or a wake-up: SingleLane inserts and removes at opposite ends inside one lock region each, signals the opposite condition, and evaluates the predicate of every wait under the lock (the C01-4 / C09-6 obligations of SingleLane) — otherwise a pipeline containing buffer or parmap never finishes', minimum=3)
+    from . import c01, c09
+    from .common import QUEUES
+
+    c01.check_singlelane(ck, 'C03-8')
+    c09.check_wait_discipline(ck, 'C03-8', modules=(QUEUES,), minimum=2)
     # ------------------------------------------------------------------ C03-7
     from . import c05
 
